@@ -203,7 +203,8 @@ def classify(behs_by_id, trace, fails, crashes):
 
 
 def load_known():
-    if not os.path.exists(KNOWN):
+    """QXV_NO_KNOWN=1: nothing is known (for runs on a tree that has the repairs applied)."""
+    if os.environ.get("QXV_NO_KNOWN") or not os.path.exists(KNOWN):
         return {}
     return {k["signature"]: k for k in json.load(open(KNOWN)).get("findings", [])}
 
